@@ -47,6 +47,24 @@ def cases() -> List[Dict[str, Any]]:
         "pk/a.py": "import pk.z\npk.z.Z.__doc__ = 'set from a'\npk.z.f.__doc__ = 'f set from a'\n",
         "pk/z.py": "class Z:\n    'own'\ndef f():\n    'own f'\n",
     }, ["pk"]))
+    # the same through 'from pk import z' (a sub-module imported as a name of its package), from a module sorting before / after it
+    for user in ("a_jobs", "zz_jobs"):
+        out.append(hw("submodule-imported-from-package-" + user, {
+            "pk/__init__.py": "",
+            f"pk/{user}.py": ("from pk import tools\nfrom zope.interface import Interface\ndef traced(f): return f\n"
+                              "tools.helper.__doc__ = 'set from the user module'\n"
+                              "class IJob(tools.IBase):\n    def run():\n        'doc'\n"
+                              "class Job(tools.Base):\n    run = traced(tools.Base.run)\n"),
+            "pk/tools.py": "from zope.interface import Interface\nclass IBase(Interface):\n    pass\nclass Base:\n    def run(self):\n        'doc'\ndef helper():\n    'own'\n",
+        }, ["pk"]))
+    out.append(hw("submodule-imported-from-package-root-first", {
+        "jobs.py": "from pk import tools\ntools.helper.__doc__ = 'set from a root module'\nclass Job(tools.Base):\n    run = staticmethod(tools.Base.run)\n",
+        "pk/__init__.py": "", "pk/tools.py": "class Base:\n    def run(self):\n        'doc'\ndef helper():\n    'own'\n"}, ["jobs.py", "pk"]))
+    # three root modules: the base is re-exported by api; the subclass re-binds the name of an inherited method
+    out.append(hw("moved-base-rebound-method-roots", {
+        "impl.py": "class X:\n    def meth(self):\n        'doc'\n",
+        "api.py": "from impl import X\n__all__ = ['X']\n",
+        "user.py": "from impl import X\nclass Y(X):\n    meth = 3\n    other = 4\n"}, ["impl.py", "api.py", "user.py"]))
     # zope interface named through a plain import
     out.append(hw("zope-plain-import", {
         "pk/__init__.py": "",
